@@ -387,7 +387,7 @@ fn build_inner(ctx: &Ctx, dt: &DataType, vals: &[V], vary: bool) -> ArrayRef {
                         .map(|v| match v {
                             V::Struct(items) => items[ci].clone(),
                             _ => {
-                                if f.is_nullable() && !junk {
+                                if f.is_nullable() && !junk && !matches!(f.data_type(), DataType::Union(_, _)) {
                                     V::Null
                                 } else {
                                     default_value(f.data_type())
@@ -405,7 +405,7 @@ fn build_inner(ctx: &Ctx, dt: &DataType, vals: &[V], vary: bool) -> ArrayRef {
         DataType::ListView(f) => build_list_view::<i32>(ctx, f, vals, vary),
         DataType::LargeListView(f) => build_list_view::<i64>(ctx, f, vals, vary),
         DataType::FixedSizeList(f, n) => {
-            let filler = if f.is_nullable() { V::Null } else { default_value(f.data_type()) };
+            let filler = if f.is_nullable() && !matches!(f.data_type(), DataType::Union(_, _)) { V::Null } else { default_value(f.data_type()) };
             let mut child: Vec<V> = Vec::with_capacity(vals.len() * *n as usize);
             for v in vals {
                 match v {
@@ -439,6 +439,14 @@ fn build_inner(ctx: &Ctx, dt: &DataType, vals: &[V], vary: bool) -> ArrayRef {
             Arc::new(MapArray::try_new(entries.clone(), offsets_i::<i32>(lens.into_iter(), 0), st, nulls_of(ctx, vals, vary), *ordered).expect("generator: map"))
         }
         DataType::Union(ufs, mode) => {
+            // a slot masked by a null parent: a union has no null of its own, any valid value will do
+            let owned: Vec<V>;
+            let vals = if vals.iter().any(|v| matches!(v, V::Null)) {
+                owned = vals.iter().map(|v| if matches!(v, V::Null) { default_value(dt) } else { v.clone() }).collect();
+                &owned[..]
+            } else {
+                vals
+            };
             let ids: Vec<i8> = vals.iter().map(|v| if let V::Union(id, _) = v { *id } else { panic!("generator: expected Union, got {v:?}") }).collect();
             match mode {
                 UnionMode::Sparse => {
